@@ -17,6 +17,7 @@
 //   - traversal faults (stat of root, open-dir, readdir#k, lazy stat for the size check):
 //     overall status FAILED iff ErrorOnFSErrors; without ErrorOnFSErrors no single fault
 //     (and no pair) fails the scan.
+//
 // Don't care: overall status for file-level (open/fstat/read) faults when ErrorOnFSErrors
 // is set; a lazy-stat fault inside a FileRequired predicate (the extractor's own decision);
 // which files inside the failing directory are still extracted.
@@ -34,6 +35,7 @@ import (
 	scalibr "github.com/google/osv-scalibr"
 	"github.com/google/osv-scalibr/extractor"
 	"github.com/google/osv-scalibr/extractor/filesystem"
+	"github.com/google/osv-scalibr/extractor/standalone"
 	scalibrfs "github.com/google/osv-scalibr/fs"
 	"github.com/google/osv-scalibr/inventory"
 	"github.com/google/osv-scalibr/plugin"
@@ -519,6 +521,95 @@ func verdict(root *memfs.Node, c cfgT, ref, got result, fs []fault) (key, detail
 	return "", "", reached
 }
 
+// standalonePhase: a standalone extractor reads the files of the scan root itself (stat, open,
+// read). Under every single fault on an operation it performs, its status must reflect what it
+// reported: SUCCEEDED iff it returned no error — also when it returns the results it got so far
+// together with the error — and the other standalone extractor and the scan as a whole carry on.
+func standalonePhase(r *ev.Run) {
+	for n := 1; n <= 3; n++ {
+		for _, root := range genTrees(n) {
+			ts := root.String()
+			var files []string
+			memfs.Walk(root, func(p string, nd *memfs.Node) {
+				if nd.Kind == memfs.File {
+					files = append(files, p)
+				}
+			})
+			if len(files) == 0 {
+				continue
+			}
+			for _, partial := range []bool{false, true} {
+				run1 := func(faults map[string]error) (sawErr bool, status map[string]plugin.ScanStatusEnum, overall plugin.ScanStatusEnum, log []string, panicked string) {
+					m := memfs.New(root)
+					m.Faults = faults
+					reader := &scankit.StEx{N: "st-reader", Fn: func(_ context.Context, in *standalone.ScanInput) (inventory.Inventory, error) {
+						var inv inventory.Inventory
+						for _, f := range files {
+							if _, err := fs.Stat(in.FS, f); err != nil {
+								sawErr = true
+								if partial {
+									return inv, err
+								}
+								return inventory.Inventory{}, err
+							}
+							b, err := fs.ReadFile(in.FS, f)
+							if err != nil {
+								sawErr = true
+								if partial {
+									return inv, err
+								}
+								return inventory.Inventory{}, err
+							}
+							inv.Packages = append(inv.Packages, &extractor.Package{Name: "st|" + f + "|" + string(b), Version: "1"})
+						}
+						return inv, nil
+					}}
+					other := &scankit.StEx{N: "st-other", Fn: func(context.Context, *standalone.ScanInput) (inventory.Inventory, error) {
+						return inventory.Inventory{Packages: []*extractor.Package{{Name: "other", Version: "1"}}}, nil
+					}}
+					cfg := &scalibr.ScanConfig{StandaloneExtractors: []standalone.Extractor{reader, other}, Capabilities: &plugin.Capabilities{}, ScanRoots: []*scalibrfs.ScanRoot{{FS: m, Path: ""}}}
+					var sr *scalibr.ScanResult
+					p, stack := ev.Recover(func() { sr = scalibr.New().Scan(context.Background(), cfg) })
+					if p != nil {
+						return sawErr, nil, 0, nil, fmt.Sprintf("%v at %s", p, ev.PanicSite(stack))
+					}
+					status = map[string]plugin.ScanStatusEnum{}
+					for _, s := range sr.PluginStatus {
+						status[s.Name] = s.Status.Status
+					}
+					return sawErr, status, sr.Status.Status, m.Log, ""
+				}
+				_, _, _, log, _ := run1(nil)
+				seen := map[string]bool{}
+				for _, site := range log {
+					if seen[site] {
+						continue
+					}
+					seen[site] = true
+					for _, k := range kindOrder {
+						sawErr, status, overall, _, panicked := run1(map[string]error{site: kinds[k]})
+						r.Evals.Add(1)
+						rp := map[string]any{"tree": ts, "standalone_partial_results": partial, "faults": []fault{{site, k}}}
+						if panicked != "" {
+							r.Violation("standalone:panic", fmt.Sprintf("tree %s fault %s/%s: %s", ts, site, k, panicked), rp)
+							continue
+						}
+						if sawErr {
+							r.Nontrivial.Add(1)
+						}
+						if sawErr != (status["st-reader"] != plugin.ScanStatusSucceeded) {
+							r.Violation("standalone-status-does-not-reflect-failure", fmt.Sprintf("tree %s fault %s/%s (extractor returns partial results with the error: %v): the standalone extractor returned an error: %v, its status: %v", ts, site, k, partial, sawErr, status["st-reader"]), rp)
+						}
+						if status["st-other"] != plugin.ScanStatusSucceeded || overall != plugin.ScanStatusSucceeded {
+							r.Violation("standalone-failure-not-contained", fmt.Sprintf("tree %s fault %s/%s: other extractor %v, scan %v", ts, site, k, status["st-other"], overall), rp)
+						}
+					}
+				}
+			}
+		}
+	}
+}
+
 func faultMap(fs []fault) map[string]error {
 	m := map[string]error{}
 	for _, f := range fs {
@@ -636,8 +727,9 @@ func main() {
 		}
 		r.Set(fmt.Sprintf("trees_with_%d_nodes", n), len(trees))
 	}
+	standalonePhase(r)
 	r.Set("bound", map[string]any{"single_faults_complete_up_to_nodes": completed, "fault_pairs_complete_up_to_nodes": completedPairs, "configs": len(cfgs)})
 	r.Assume("memfs numbers every FS operation of a scan deterministically; a fault is identified by (operation, path, occurrence)")
 	r.Assume("UseGitignore stays off: the property's quantifier lists the operation sites of the plain walk")
-	r.Finish(fmt.Sprintf("every tree with <=%d nodes holding >=1 required file (dirs a,b; p1.txt, p2.txt (required by 2 extractors), x.bin (exec, predicate calls Stat), junk) x {ErrorOnFSErrors} x {MaxFileSize 0,100} x {ReadDirFile, fallback} x 2 extractor sets x {whole-tree walk, explicitly requested directory, explicitly requested file, directory then file, file then directory}: every single fault = every operation site of the fault-free run x {permission, I/O, not-exist}; every pair of sites (trees <=%d nodes) with 3 kind combinations; each faulted Scan compared with the fault-free Scan; for single faults on trees <=4 nodes the same configuration is then scanned again without the fault and must equal the fault-free scan. non-trivial = runs in which every injected fault was actually reached (a first fault can mask the second)", maxNodes, pairNodes), completed == maxNodes)
+	r.Finish(fmt.Sprintf("every tree with <=%d nodes holding >=1 required file (dirs a,b; p1.txt, p2.txt (required by 2 extractors), x.bin (exec, predicate calls Stat), junk) x {ErrorOnFSErrors} x {MaxFileSize 0,100} x {ReadDirFile, fallback} x 2 extractor sets x {whole-tree walk, explicitly requested directory, explicitly requested file, directory then file, file then directory}: every single fault = every operation site of the fault-free run x {permission, I/O, not-exist}; every pair of sites (trees <=%d nodes) with 3 kind combinations; each faulted Scan compared with the fault-free Scan; plus a standalone extractor that reads every file of the root itself (trees <=3 nodes, every single fault, returning nothing or its partial results with the error): its status reflects the error it returned, the next extractor and the scan carry on; for single faults on trees <=4 nodes the same configuration is then scanned again without the fault and must equal the fault-free scan. non-trivial = runs in which every injected fault was actually reached (a first fault can mask the second)", maxNodes, pairNodes), completed == maxNodes)
 }
